@@ -108,6 +108,34 @@ def gen(ctx):
                 add("hmac1 %s %s %s" % (alg, hexs(key), hexs(m)), "hmac1:%s:%s%s" % (alg, kcls, ":emptymsg" if n == 0 else ""))
                 if alg == "sm3":
                     add("hmac %s %s" % (hexs(key), chunks_str(r.split(m))), "hmac:sm3:%s" % kcls)
+    # --- hmac_finish_and_verify: the MAC, and its neighbourhood (bit flips at both ends, shorter, longer, empty)
+    import hmac as pyhmac
+    PY = {"sm3": "sm3", "sha1": "sha1", "sha224": "sha224", "sha256": "sha256", "sha384": "sha384", "sha512": "sha512",
+          "sha512-224": "sha512_224", "sha512-256": "sha512_256"}
+    for alg, B in ALGS + DISPATCH_ONLY:
+        for kl in (1, B, B + 1):
+            key = r.bytes(kl)
+            for n in (0, 1, B + 3):
+                m = r.bytes(n)
+                mac = pyhmac.new(key, m, PY[alg]).digest()
+                cands = [("ok", mac), ("flip-first", bytes([mac[0] ^ 0x80]) + mac[1:]), ("flip-last", mac[:-1] + bytes([mac[-1] ^ 1])),
+                         ("short", mac[:-1]), ("long", mac + b"\0"), ("empty", b""), ("prefix8", mac[:8])]
+                if thorough:
+                    cands += [("flip-%d" % i, mac[:i] + bytes([mac[i] ^ (1 << r.below(8))]) + mac[i + 1:]) for i in range(1, len(mac) - 1, 5)]
+                for cls, cand in cands:
+                    add("hmacv %s %s %s %s" % (alg, hexs(key), chunks_str(r.split(m)) if n else "-", hexs(cand)),
+                        "hmacv:%s:%s" % (alg, cls.split("-")[0] if cls.startswith("flip") else cls))
+    # --- sm3_digest_*: unkeyed and keyed (12..64 bytes, refused outside), chunkings with empty pieces
+    for key in ["null"] + [hexs(r.bytes(kl)) for kl in (0, 1, 11, 12, 13, 32, 63, 64, 65, 100)]:
+        kl = -1 if key == "null" else (0 if key == "-" else len(key) // 2)
+        kcls = "nokey" if kl < 0 else ("key<12" if kl < 12 else ("key>64" if kl > 64 else "key-ok"))
+        for n in (0, 1, 55, 56, 64, 65, 200):
+            m = r.bytes(n)
+            add("sm3dg %s %s" % (key, chunks_str(r.split(m))), "sm3dg:%s" % kcls)
+        m = r.bytes(70)
+        add("sm3dg %s %s" % (key, chunks_str([m[:10], b"", m[10:64], b"", m[64:]])), "sm3dg:%s:empty-chunks" % kcls)
+        add("sm3dg %s ." % key, "sm3dg:%s:no-update" % kcls)
+        add("sm3dg %s -" % key, "sm3dg:%s:only-empty-chunk" % kcls)
     # --- KDF: output lengths 1..100 dense, non-multiples of 32, large
     for outlen in list(range(0, 101)) + [255, 256, 257, 8160] + ([65535] if thorough else []):
         z = r.bytes(r.range(0, 80))
